@@ -183,7 +183,7 @@ fn hostile(cfg: &str, r: &mut StdRng, tag: usize) -> (String, &'static str, usiz
     let okey = if coord_cfg { "origin_x" } else { "origin_vertex" };
     let dkey = if coord_cfg { "destination_y" } else { "destination_vertex" };
     let bad_vals = [json!("abc"), json!(null), json!([1, 2]), json!({"a": 1}), json!(true), json!(-1), json!(1.5e300), json!(123456789012i64), json!(-7.25)];
-    let pick = r.gen_range(0..23);
+    let pick = r.gen_range(0..24);
     let non_obj = [json!(5), json!("query"), json!(null), json!([1, 2, 3]), json!(true), json!([]), json!(2.5)];
     let grid_cfg = matches!(cfg, "grid" | "grid_vrtree" | "inject_grid");
     match pick {
@@ -225,6 +225,14 @@ fn hostile(cfg: &str, r: &mut StdRng, tag: usize) -> (String, &'static str, usiz
         18 => ("bad_cost_aggregation".into(), "hostile", 1, with("cost_aggregation", [json!("max"), json!(7), json!(null)][r.gen_range(0..3)].clone())),
         19 => ("bad_vehicle_rates".into(), "hostile", 1, with("vehicle_rates", [json!("x"), json!({"time": {"type": "warp"}}), json!([1])][r.gen_range(0..3)].clone())),
         20 => ("weight_estimate_non_numeric".into(), "any", 1, with("query_weight_estimate", [json!("big"), json!(null), json!([1]), json!({"a": 2})][r.gen_range(0..4)].clone())),
+        23 if grid_cfg => {
+            // a grid list may repeat a value (also next to itself): every position is its own combination
+            let v = r.gen_range(0..3);
+            let lists = [json!([v, v]), json!([v, v, 7]), json!([7, v, v]), json!([v, 7, v])];
+            let l = lists[r.gen_range(0..lists.len())].clone();
+            let n = l.as_array().unwrap().len();
+            ("grid_repeated_values".into(), "valid", n, with("grid_search", json!({"a": l})))
+        }
         22 if !coord_cfg => {
             // a tree query (no destination) from a vertex that does not exist
             let mut b = with("origin_vertex", json!(6 + r.gen_range(0..1000)));
